@@ -84,6 +84,15 @@ pub struct Names {
     allocs: usize,
     /// (worker, node) → writer reservations currently held (its fetch_add / fetch_sub on active_writers)
     reserved: HashMap<(usize, usize), i64>,
+    /// running number of atomic accesses; when a (worker, node) reservation began; when a node was
+    /// last given up by its owner
+    evno: u64,
+    res_since: HashMap<(usize, usize), u64>,
+    released_at: HashMap<usize, u64>,
+    /// (worker, node) → when its check_cooldown looked at active_writers; node → was it released
+    /// from cooldown on the strength of a look that predates that cooldown's start
+    chk_at: HashMap<(usize, usize), u64>,
+    stale_release: HashMap<usize, bool>,
     /// per worker: the API call it is in, and its last atomic access (for oracle messages)
     cur_api: HashMap<usize, String>,
     last_site: HashMap<usize, String>,
@@ -271,6 +280,7 @@ fn after_hook(e: &Event, val: usize, ok: bool) {
         crate::race::atomic(e.addr, kind, e.ord, e.ord_fail);
     }
     let line = names(|n| {
+        n.evno += 1;
         let site = site_label(n, e);
         n.last_site.insert(w, format!("{}{}", site, if ok { "" } else { " fail" }));
         if site.starts_with("list.rs:Node::") {
@@ -296,11 +306,28 @@ fn after_hook(e: &Event, val: usize, ok: bool) {
             if site.ends_with("Node::check_cooldown#1") && val > 0 {
                 n.saw_writer.insert(w, true);
             }
+            if site.ends_with("Node::check_cooldown#1") {
+                let ev = n.evno;
+                n.chk_at.insert((w, j), ev);
+            }
         }
         match k {
             Kind::F(j, Field::Writers) => {
-                if e.op == AOp::FetchAdd { *n.reserved.entry((w, j)).or_insert(0) += 1; }
-                if e.op == AOp::FetchSub { *n.reserved.entry((w, j)).or_insert(0) -= 1; }
+                if e.op == AOp::FetchAdd {
+                    let c = n.reserved.entry((w, j)).or_insert(0);
+                    *c += 1;
+                    if *c == 1 {
+                        let ev = n.evno;
+                        n.res_since.insert((w, j), ev);
+                    }
+                }
+                if e.op == AOp::FetchSub {
+                    let c = n.reserved.entry((w, j)).or_insert(0);
+                    *c -= 1;
+                    if *c <= 0 {
+                        n.res_since.remove(&(w, j));
+                    }
+                }
             }
             // the helping words of a node are touched only by its owner, or by a writer that is
             // counted in active_writers while it digs through the node (cooldown / ABA protection)
@@ -316,17 +343,47 @@ fn after_hook(e: &Event, val: usize, ok: bool) {
             _ => {}
         }
         if let Kind::F(j, Field::InUse) = k {
-            if site.ends_with("Node::get#0") && ok {
+            let claim = site.ends_with("Node::get#0") && ok;
+            if claim {
                 if let Some(o) = n.owner.get(&j) {
                     crate::varc::violation(format!("ownership: node n{} claimed by t{} while owned by t{}", j, w, o));
                 }
+                // the cooldown exists so that no writer that entered the node under its previous
+                // owner is still inside when the next owner starts using it
+                if let Some(rel) = n.released_at.get(&j).copied() {
+                    for ((w2, j2), since) in n.res_since.iter() {
+                        if *j2 == j && *w2 != w && *since < rel {
+                            let how = if n.stale_release.get(&j).copied().unwrap_or(false) {
+                                "released from cooldown by a check_cooldown whose look at active_writers predates that cooldown (ABA on in_use)"
+                            } else {
+                                "no cooldown"
+                            };
+                            crate::varc::violation(format!(
+                                "ownership: node n{} is claimed by t{} while writer t{}, which entered it under its previous owner, is still inside (used by two threads at a time: {})",
+                                j, w, w2, how
+                            ));
+                        }
+                    }
+                }
                 n.owner.insert(j, w);
+            }
+            if site.ends_with("Node::check_cooldown#2") && ok {
+                let looked = n.chk_at.get(&(w, j)).copied().unwrap_or(0);
+                let rel = n.released_at.get(&j).copied().unwrap_or(0);
+                n.stale_release.insert(j, looked < rel);
             }
             if site.ends_with("Node::start_cooldown#0") {
                 if n.owner.get(&j) != Some(&w) {
                     crate::varc::violation(format!("ownership: t{} sends node n{} to cooldown but does not own it", w, j));
                 }
                 n.owner.remove(&j);
+                let ev = n.evno;
+                n.released_at.insert(j, ev);
+            } else if !claim && n.owner.get(&j) == Some(&w) && (matches!(e.op, AOp::Store | AOp::Swap) || (ok && matches!(e.op, AOp::CompareExchange | AOp::CompareExchangeWeak))) {
+                // the owner gives the node up in some other way
+                n.owner.remove(&j);
+                let ev = n.evno;
+                n.released_at.insert(j, ev);
             }
         }
         if k == Kind::Head && matches!(e.op, AOp::CompareExchange | AOp::CompareExchangeWeak) && ok {
@@ -693,6 +750,7 @@ where
         }
     };
     match op {
+        Op::Late => "skip".into(),
         Op::New { h, val } => {
             if !h_free!(*h) {
                 return "skip".into();
@@ -1163,6 +1221,65 @@ where
     }
 }
 
+/// thread-local whose destructor runs the operations a program wants executed during thread
+/// shutdown (after the crate's own thread-local storage has been destroyed)
+pub struct Late(std::cell::RefCell<Option<Box<dyn FnOnce()>>>);
+impl Drop for Late {
+    fn drop(&mut self) {
+        if let Some(f) = self.0.borrow_mut().take() {
+            f();
+        }
+    }
+}
+thread_local! {
+    static LATE: Late = Late(std::cell::RefCell::new(None));
+}
+
+/// one API call of a worker, with the scheduling point before it, the trace lines around it and
+/// the classification of a panic coming out of it
+fn run_one<S>(sh: &Arc<Shared<S>>, w: usize, op: &Op, apis: &Arc<Mutex<HashMap<usize, String>>>)
+where
+    S: Strategy<T> + CaS<T> + ByValue + Strategy<T1> + Default + Send + Sync + 'static,
+    Guard<T, S>: Send,
+{
+    point(Pending { site: "begin".into(), weak_cas: false, api: op.text() });
+    lock(apis).insert(w, op.text());
+    names(|n| n.cur_api.insert(w, op.text()));
+    emit(format!("begin {}", op.text()));
+    sched::reset_api_steps();
+    let r = catch_unwind(AssertUnwindSafe(|| exec_op(sh, w, op)));
+    match r {
+        Ok(s) => emit(format!("end {}", s)),
+        Err(p) => {
+            let msg = p
+                .downcast_ref::<String>()
+                .cloned()
+                .or_else(|| p.downcast_ref::<&str>().map(|s| s.to_string()))
+                .unwrap_or_default();
+            if msg.starts_with("injected") {
+                // a destructor panicked inside a writer's debt walk (after its
+                // exchange): remember which value it had taken out
+                names(|n| {
+                    let site = n.last_site.get(&w).cloned().unwrap_or_default();
+                    let in_walk = site.contains("Debt::pay") || site.contains("Slots::help") || site.contains("Node::traverse")
+                        || site.contains("NodeReservation") || site.contains("reserve_writer") || site.contains("LocalNode::help")
+                        || site.contains("attempt") || site.contains("fallback") || site.contains("Slots::confirm") || site.contains("Slots::get_debt");
+                    if is_writer_api(&op.text()) && in_walk {
+                        if let Some((_, _, replaced, _, _)) = n.last_write.get(&w).cloned() {
+                            n.aborted_walks.insert(replaced, (w, op.text(), site));
+                        }
+                    }
+                });
+                emit("end panic-injected".to_string());
+            } else {
+                violation(format!("panic: t{} in `{}`: {}", w, op.text(), msg));
+                emit("end panic".to_string());
+            }
+        }
+    }
+    lock(apis).insert(w, String::new());
+}
+
 pub struct RunCfg {
     pub max_steps: usize,
     pub load_bound: usize,
@@ -1185,6 +1302,11 @@ where
         n.owner.clear();
         n.alive.clear();
         n.exiting.clear();
+        n.evno = 0;
+        n.res_since.clear();
+        n.released_at.clear();
+        n.chk_at.clear();
+        n.stale_release.clear();
         n.peak_owners = 0;
         n.saw_writer.clear();
         n.lockstep_allocs = 0;
@@ -1227,43 +1349,24 @@ where
                 .spawn(move || {
                     sched::register(w);
                     sched::SENTINEL.with(|s| s.0.set(Some(w)));
-                    for op in &ops {
-                        point(Pending { site: "begin".into(), weak_cas: false, api: op.text() });
-                        lock(&apis).insert(w, op.text());
-                        names(|n| n.cur_api.insert(w, op.text()));
-                        emit(format!("begin {}", op.text()));
-                        sched::reset_api_steps();
-                        let r = catch_unwind(AssertUnwindSafe(|| exec_op(&sh, w, op)));
-                        match r {
-                            Ok(s) => emit(format!("end {}", s)),
-                            Err(p) => {
-                                let msg = p
-                                    .downcast_ref::<String>()
-                                    .cloned()
-                                    .or_else(|| p.downcast_ref::<&str>().map(|s| s.to_string()))
-                                    .unwrap_or_default();
-                                if msg.starts_with("injected") {
-                                    // a destructor panicked inside a writer's debt walk (after its
-                                    // exchange): remember which value it had taken out
-                                    names(|n| {
-                                        let site = n.last_site.get(&w).cloned().unwrap_or_default();
-                                        let in_walk = site.contains("Debt::pay") || site.contains("Slots::help") || site.contains("Node::traverse")
-                                            || site.contains("NodeReservation") || site.contains("reserve_writer") || site.contains("LocalNode::help")
-                                            || site.contains("attempt") || site.contains("fallback") || site.contains("Slots::confirm") || site.contains("Slots::get_debt");
-                                        if is_writer_api(&op.text()) && in_walk {
-                                            if let Some((_, _, replaced, _, _)) = n.last_write.get(&w).cloned() {
-                                                n.aborted_walks.insert(replaced, (w, op.text(), site));
-                                            }
-                                        }
-                                    });
-                                    emit("end panic-injected".to_string());
-                                } else {
-                                    violation(format!("panic: t{} in `{}`: {}", w, op.text(), msg));
-                                    emit("end panic".to_string());
+                    let (now, late): (Vec<Op>, Vec<Op>) = match ops.iter().position(|o| *o == Op::Late) {
+                        Some(k) => (ops[..k].to_vec(), ops[k + 1..].to_vec()),
+                        None => (ops.clone(), vec![]),
+                    };
+                    if !late.is_empty() {
+                        // registered before the crate is used on this thread, so destroyed after
+                        // the crate's own thread-local (and before the sentinel)
+                        let (sh2, apis2) = (sh.clone(), apis.clone());
+                        LATE.with(|l| {
+                            *l.0.borrow_mut() = Some(Box::new(move || {
+                                for op in &late {
+                                    run_one(&sh2, w, op, &apis2);
                                 }
-                            }
-                        }
-                        lock(&apis).insert(w, String::new());
+                            }))
+                        });
+                    }
+                    for op in &now {
+                        run_one(&sh, w, op, &apis);
                     }
                     point(Pending { site: "exit".into(), weak_cas: false, api: String::new() });
                     emit("exit".to_string());
